@@ -140,6 +140,7 @@ PreludeTypes == <<
   "struct CB { const int cb : 3; int x; };",
   "struct SA { int a[2]; int m2[2][2]; struct { int m[2]; } in; int x; };",
   "typedef int A2[2];",
+  "char gch; short gsh; unsigned gun; long glo; unsigned long gul;",
   "#define NIL ((td_t *)0)",   \* td_t is int; no keyword in the body: pp.c:keyword() frees the spelling of a keyword token that the macro body still owns, so a second use of such a macro reads freed memory (reported, C12/C19)
   "#define MF(a, b) ((a) + (b))",
   "#define MG(a, b) ((a) b)",
